@@ -4,11 +4,7 @@ Axiom audit for `Props/C06FairFull.lean` (allowed: `propext`, `Classical.choice`
 -/
 open NsyncVerif.MuC
 
-#print axioms C06_fair_deadlock_witness
-#print axioms C06_fair_termination_full_refuted
-#print axioms C06_fair_finite_steps_full_refuted
-#print axioms C06_fair_quiescence_or_sleepers_full_refuted
-#print axioms C06_long_wait_progress_full_refuted
+#print axioms C06_fair_termination_old_code_witness
 #print axioms C06_stage_monotone
 #print axioms C06_fair_stage_freezes
 #print axioms C06_fair_closes
